@@ -55,6 +55,36 @@ def baseline_records(fns):
     return out
 
 
+def closure_parent(name):
+    return re.sub(r"(::\{closure#\d+\})+$", "", name)
+
+
+def baseline_closures(fns):
+    """{parent function: [fingerprint of each of its closures]}: a closure has no stable name (its index shifts when
+    another closure is added before it), it is recognised by its body"""
+    out = {}
+    for f in fns:
+        if "blocks" in f and f.get("kind") == "closure":
+            out.setdefault(closure_parent(f["name"]), []).append(sorted(fingerprint(f).items()))
+    return out
+
+
+def new_closures(fns, base):
+    """ids of the closures whose body matches no closure of the same function in the baseline"""
+    known = base.get("closures")
+    if known is None:
+        return set()
+    out = set()
+    for f in fns:
+        if "blocks" not in f or f.get("kind") != "closure":
+            continue
+        fp = fingerprint(f)
+        olds = [Counter(dict((k, v) for k, v in o)) for o in known.get(closure_parent(f["name"]), [])]
+        if not any((not fp and not o) or similarity(fp, o) >= THRESHOLD for o in olds):
+            out.add(f["id"])
+    return out
+
+
 def apply(fns, hir):
     """rename (in place) the new functions that are renamed baseline functions; returns {old name: new name}"""
     try:
